@@ -17,7 +17,8 @@ theorem guards_as_extracted :
     asyncioUpdatedDrivesTimer = true ∧ trioUpdatedDrivesTimer = true ∧
     asyncioIdleFireClosesProtocolThenTransport = true ∧ trioIdleFireClosesProtocolThenTransport = true ∧
     asyncioReaderEndStopsIdle = true ∧ trioReaderEndStopsIdle = true ∧
-    h11ClosedSetsFlag = true ∧ h11ClosedClosesStream = true ∧ h11ClosedReleasesReader = true ∧ pausedBreaksWhenClosed = true := by decide
+    h11ClosedSetsFlag = true ∧ h11ClosedClosesStream = true ∧ h11ClosedReleasesReader = true ∧ pausedBreaksWhenClosed = true ∧
+    h2StreamClosedIgnoresUnknown = true := by decide
 
 /-- **timer_armed_implies_not_busy**: whenever the idle timer is armed no request is in progress and no WebSocket is open,
     so the timer never closes a busy connection -/
@@ -53,8 +54,11 @@ theorem idle_close_time (cfg : Cfg) (ops : List Op) (s : St) (hr : run (init cfg
       simp only [Option.some.injEq] at hs'
       subst hs'
       have e : ({ s with timer := none } : St).run .timer [.handleClosed, .transportClose, .timerEnd] =
-          ({ s with timer := none, pclosed := s.pclosed || h11ClosedSetsFlag } : St).release.closeTransport := by
-        simp [St.run, FUEL, exec, hl, h11ClosedClosesStream, h11ClosedReleasesReader]
+          ({ s with timer := none, pclosed := s.pclosed || h11ClosedSetsFlag, draining := [],
+                    ready := s.ready ++ s.draining.map (·.1) } : St).release.closeTransport := by
+        have f1 : s.draining.filter (fun _ => true) = s.draining := List.filter_eq_self.2 (fun _ _ => rfl)
+        have f2 : s.draining.filter (fun _ => false) = [] := List.filter_eq_nil_iff.2 (fun _ _ => by simp)
+        simp [St.run, FUEL, exec, hl, h11ClosedClosesStream, h11ClosedReleasesReader, f1, f2]
       rw [e]
       refine ⟨?_, ?_, ?_, ?_⟩
       · simp [St.closeTransport, St.release]; split <;> split <;> simp_all [St.emit]
@@ -117,7 +121,23 @@ theorem reader_end_stops_timer (s : St) (w : Who) : (s.run w [.readerEnd]).timer
   simp [St.run, FUEL, exec, this, St.stopTimer]
   split <;> simp_all [St.emit]
 
+/-- **a late `StreamClosed` does not prolong idleness**: HTTP/2 `stream_send(StreamClosed)` for a stream that is no longer
+    registered (the client reset it, its application finishes later) changes nothing - in particular neither the timer nor
+    its deadline -/
+theorem late_stream_closed_changes_nothing (s : St) (w : Who) (i : Nat) (h : s.live.contains i = false) :
+    s.run w [.h2StreamClosed i] = s := by
+  have ha : s.h2ClosedApplies i = false := by simp only [St.h2ClosedApplies, h2StreamClosedIgnoresUnknown, if_true]; exact h
+  simp only [St.run, FUEL, exec, ha]
+  rfl
+
 /-! ### witnesses -/
+
+/-- HTTP/2: the client resets the only stream at 1 s (idle from then), the streaming application ignores the disconnect and
+    ends its response at 4 s: the deadline stays 1 s + T and the connection is closed then, not at 4 s + T -/
+example : (run (init { proto := .h2, T := 5000 }) [.read, .head {}, .h2eom 0, .needData, .appSend 0 (.start false), .appSend 0 (.body true true),
+      .tick 1000, .read, .h2rst 0, .needData, .tick 3000, .appSend 0 (.body false true), .appExit 0, .tick 2000, .timerFire]).map
+    (fun s => (s.closeAt, s.timer)) = some (some 6000, none) := by decide
+
 
 /-- idle connection: nothing arrives, closed at exactly T; the handler is done at the same instant -/
 example : (run (init { T := 5000 }) [.tick 5000, .timerFire, .readerSeesClose, .handlerExit]).map (fun s => (s.closeAt, s.doneAt)) =
